@@ -295,7 +295,61 @@ func (r *Run) IsKnown(sig string) bool {
 }
 
 // Finish writes the evidence file and exits with the contract's status.
+// racePass turns the verdict of run.sh's free-running -race pass (VERIF_RACE_PASS) into coverage and, if the
+// detector reported a data race, into a violation named after the go-kardia functions involved.
+func (r *Run) racePass() {
+	v := os.Getenv("VERIF_RACE_PASS")
+	if v == "" || r.ReplayPath != "" {
+		return
+	}
+	switch {
+	case v == "clean":
+		r.Set("race_pass", "clean: the concurrent body ran under the race detector without a report")
+	case strings.HasPrefix(v, "race:"):
+		path := strings.TrimPrefix(v, "race:")
+		b, _ := os.ReadFile(path)
+		txt := string(b)
+		// the go-kardia functions of the two conflicting accesses (first frames below "Write at"/"Read at"/"Previous ...")
+		seen := map[string]bool{}
+		var fns []string
+		lines := strings.Split(txt, "\n")
+		for i, l := range lines {
+			t := strings.TrimSpace(l)
+			if strings.HasPrefix(t, "Write at") || strings.HasPrefix(t, "Read at") || strings.HasPrefix(t, "Previous write at") || strings.HasPrefix(t, "Previous read at") {
+				for _, m := range lines[i+1:] {
+					m = strings.TrimSpace(m)
+					if m == "" {
+						break
+					}
+					if strings.HasPrefix(m, "github.com/kardiachain/go-kardia/") {
+						fn := strings.TrimPrefix(m, "github.com/kardiachain/go-kardia/")
+						if k := strings.LastIndex(fn, "("); k > 0 {
+							fn = fn[:k]
+						}
+						if !seen[fn] {
+							seen[fn] = true
+							fns = append(fns, fn)
+						}
+						break
+					}
+				}
+			}
+		}
+		sort.Strings(fns)
+		if len(txt) > 4000 {
+			txt = txt[:4000]
+		}
+		r.Set("race_pass", "DATA RACE reported")
+		r.Violation(r.ID+"|oracle=data-race|at="+strings.Join(fns, "+"), "the race detector reports unsynchronised conflicting accesses while goroutines work on private objects (shared mutable state behind an interface that is used concurrently): "+strings.Join(fns, ", "),
+			map[string]interface{}{"kind": "race-pass", "report": txt})
+	default:
+		r.Set("race_pass", "not decided: "+v)
+		r.NotExhaustive("the -race pass did not end normally: " + v)
+	}
+}
+
 func (r *Run) Finish() {
+	r.racePass()
 	r.mu.Lock()
 	defer r.mu.Unlock()
 	cov := map[string]interface{}{}
